@@ -354,6 +354,11 @@ m('c12-copy-short', ['C12'], 'z/allocator.go', """	out := a.Allocate(len(buf))
 	copy(out, buf)""", """	out := a.Allocate(len(buf))
 	copy(out, buf[:len(buf)-len(buf)/64])""")
 m('c12-revert-trim-first-chunk', ['C12'], 'z/allocator.go', "		if i == 0 || alloc < max {", "		if alloc < max {")
+m('c12-revert-size-from-nearest-buffer', ['C12'], 'z/allocator.go', """	prev := bufIdx - 1
+	for prev > 0 && len(a.buffers[prev]) == 0 {
+		prev--
+	}
+	pageSize := 2 * len(a.buffers[prev])""", """	pageSize := 2 * len(a.buffers[bufIdx-1])""")
 m('c12-reset-keeps-chunk-index', ['C12'], 'z/allocator.go', "	atomic.StoreUint64(&a.compIdx, 0)", "	atomic.StoreUint64(&a.compIdx, atomic.LoadUint64(&a.compIdx)&^0xFFFFFFFF)")
 
 def run(cmd, **kw):
